@@ -297,6 +297,11 @@ def layer_unicode_forms():
         yield ("A", (a + "|" + b, "both"), skeleton(l1=a, l2=b, iname=a, pname=b), 1e-8)
     # characters that str.splitlines() takes for line boundaries and the TextGrid format does not (vertical tab, form feed, the information
     # separators, NEL, LINE / PARAGRAPH SEPARATOR), and a character beyond the basic plane at the start of a label: all of them ordinary label text
+    # label lines that look like syntax of the surrounding format or of Praat scripts: a line starting with "!" (Praat's comment character), "#", ";",
+    # "//" - inside the quotes of a label they are text
+    for u in ("wait\n! really?\nyes", "stop\n!", "a\n  !b", "!a", "x\n# y\nz", "x\n;y", "x\n// y", "x\n\"\"quoted line\"\"\ny"):
+        yield ("A", (u, "ilabel1"), skeleton(l1=u), 1e-8)
+        yield ("A", (u, "plabel"), skeleton(pm=u), 1e-8)
     for ch in LINE_BOUNDARY_CHARS + ("\U00020bb7",):
         # (at the START of a label most of them would be stripped as white space - that is the constructor's documented business, not the file's)
         for u in ("left" + ch + "right",) + ((ch + "x",) if not ch.isspace() else ()):
